@@ -148,9 +148,12 @@ class _Server(apps.RecServer):
         return chan, sess
 
 
+YIELD_SLEEP = 0        # virtual seconds per yield (C11 time-based rekeys)
+
+
 async def _yield(rng):
     for _ in range(rng.choice([0, 0, 1, 1, 2, 5])):
-        await asyncio.sleep(0)
+        await asyncio.sleep(YIELD_SLEEP)
 
 
 async def _server_task(idx, spec, sess, rng, expect_in):
@@ -262,7 +265,8 @@ def run_case(case, hooks=None):
             return _Server(log, case, sessions)
 
         async with scen.Env(loop, server_factory=mk, chunking=case['chunk'],
-                            seed=case['cseed']) as env:
+                            seed=case['cseed'],
+                            server_opts=case.get('server_opts')) as env:
 
             def on_chunk(pipe, chunk):
                 mon['chunks'] += 1
@@ -282,7 +286,9 @@ def run_case(case, hooks=None):
             if hooks:
                 hooks.setup(env)
 
-            conn = await env.connect()
+            conn = await env.connect(**(case.get('connect_opts') or {}))
+            if hooks and hasattr(hooks, 'on_conn'):
+                hooks.on_conn(env, conn)
             csess = []
             tasks = []
             stream_got = {}
